@@ -63,6 +63,7 @@ TOL = F(1, 10 ** 9)
 TINY = F(1, 10 ** 12)
 K_ZERO = 'prod-pressure:ZeroDivisionError:depletion-rate>100*steps-per-year'
 K_UNBOUND = 'inj-pressure:UnboundLocalError:overpressure-without-injection-reservoir'
+K_SECOND = 'inj-pressure:TypeError:second-wellbores-pass(district-heating)-with-overpressure'
 CORPUS = fw.VERIF / 'corpus' / 'C15'
 Q, QL = qconv.q, qconv.qlist
 
@@ -286,14 +287,14 @@ OP_KEYS = ('Overpressure Percentage', 'Overpressure Depletion Rate', 'Injection 
            'Injection Reservoir Inflation Rate', 'Injection Reservoir Depth', 'Injection Reservoir Temperature')
 
 
-def make_config(ctx, hyd, flash, op):
+def make_config(ctx, hyd, flash, op, dh=False):
     """hyd: 'imp'|'idx'; flash: self-flowing production; op: None|'split'|'artesian'|'fast'|'nosplit'|'toofast'"""
     rnd = ctx.rng
     dec = lambda lo, hi, d=2: configs.dec(rnd, lo, hi, d)
     life = rnd.choice([2, 3, 5, 8, 12] + ([] if ctx.quick else [20, 30]))
     k = rnd.choice([1, 2, 3, 4, 6] + ([] if ctx.quick or life > 12 else [12]))
-    enduse = 1 if flash else rnd.choice([1, 2, 31, 51])
-    plant = rnd.choice([3, 4]) if flash else (rnd.choice([1, 2]) if enduse != 2 else 9)
+    enduse = 1 if flash else 2 if dh else rnd.choice([1, 2, 31, 51])
+    plant = rnd.choice([3, 4]) if flash else 7 if dh else (rnd.choice([1, 2]) if enduse != 2 else 9)   # 7: district heating
     p = dict(configs.synthetic(rnd, enduse=enduse, plant=plant, resmodel=rnd.choice([3, 4]), life=life, tspy=k,
                                overpressure=False, addons=False))
     for key in HYD_KEYS + OP_KEYS:
@@ -327,7 +328,7 @@ def make_config(ctx, hyd, flash, op):
                 p['Injection Reservoir Initial Pressure'] = dec(5000, 20000, 0)
         if rnd.random() < 0.5:
             p['Reservoir Hydrostatic Pressure'] = dec(12000, 45000, 0)
-    return {'tag': f'{hyd}/{"flash" if flash else "pumped"}/{op or "plain"}', 'text': runner.params_to_text(p)}
+    return {'tag': f'{hyd}/{"flash" if flash else "dh" if dh else "pumped"}/{op or "plain"}', 'text': runner.params_to_text(p)}
 
 
 def run_configs(ctx):
@@ -336,6 +337,9 @@ def run_configs(ctx):
     for hyd, flash in (('idx', False), ('idx', True), ('imp', False)):
         for op, w in ((None, 10), ('split', 8), ('artesian', 4), ('fast', 4), ('nosplit', 1), ('toofast', 1)):
             cfgs += [make_config(ctx, hyd, flash, op) for _ in range(w * m)]
+    # district heating: Model.Calculate runs the wellbores a second time on the same model
+    cfgs += [make_config(ctx, hyd, False, op, dh=True) for hyd, op in (('idx', None), ('imp', None), ('idx', 'split'), ('imp', 'split'))
+             for _ in range(m)]
     return cfgs
 
 
@@ -355,7 +359,7 @@ def _series(x, n):
 def check_runs(ctx, cfgs, results):
     W = _W()
     from geophires_x.GeoPHIRESUtils import quantity, static_pressure_MPa
-    flat = {k: [] for k in ('run_index', 'run_impedance', 'run_prod_pressure', 'run_prod_pressure_steps', 'run_inj_stage', 'run_hydro', 'run_static')}
+    flat = {k: [] for k in ('run_index', 'run_impedance', 'run_prod_pressure', 'run_prod_pressure_steps', 'run_inj_stage', 'run_inj_stage2', 'run_hydro', 'run_static')}
     terms, owners, nsnap = [], [], 0
     for cfg, r in zip(cfgs, results):
         inp = {'desc': {'part': 'run', 'tag': cfg['tag'], 'text': cfg['text']}}
@@ -378,6 +382,15 @@ def check_runs(ctx, cfgs, results):
                 flat['run_inj_stage'].append({'flat': [F(1), F(0), F(0), F(1), F(1), F(1), F(1), F(1)], 'impl': ('E', 5),
                                               'desc': inp['desc'], 'nontrivial': ('inj', 'unbound')})
                 ctx.count('whole-run', known_crash='unbound')
+            elif fr and fr[1] == 'Calculate' and 'TypeError' in err and "'list' and 'int'" in err and has('Overpressure Percentage') \
+                    and params.get('Power Plant Type') == '7':
+                ctx.violate('property', K_SECOND, f'run fails in the second WellBores.Calculate of a district-heating run (line {fr[0]}): {err}',
+                            inp=inp, expected='an injection-reservoir pressure series', observed=err)
+                # the model of the second pass must raise on the same flags (6 = Pressure.E_TYPE)
+                flat['run_inj_stage2'].append({'flat': [F(1), F(has('Injection Reservoir Depth')), F(has('Injection Reservoir Inflation Rate')),
+                                                        F(1), F(1), F(1), F(1), F(1)], 'impl': ('E', 6), 'desc': inp['desc'],
+                                               'nontrivial': ('inj', 'second-pass-crash')})
+                ctx.count('whole-run', known_crash='second-pass')
             elif fr and fr[1] != 'RameyCalc':
                 ctx.violate('property', f'crash:WellBores.{fr[1]}:{err.split(":")[0]}',
                             f'accepted input crashes in WellBores.{fr[1]} (line {fr[0]}): {err}', inp=inp,
@@ -443,6 +456,8 @@ def check_runs(ctx, cfgs, results):
         pinj = _f(wb('injection_reservoir_initial_pressure'))
         flat['run_inj_stage'].append(case([F(bool(opp['provided'])), F(dprov), F(iprov), F(life), F(k), pinj, infl] + prs, irs,
                                           ('inj', dprov, iprov, infl > 0) if opp['provided'] else None))
+        if params.get('Power Plant Type') == '7':   # the snapshot is what the second pass left
+            flat['run_inj_stage2'].append(case([F(bool(opp['provided'])), F(dprov), F(iprov), F(life), F(k), pinj, infl] + prs, irs, ('inj', 'second-pass')))
         if opp['provided']:
             owners.append((inp, 'injection pressure'))
             terms.append(f'check_inj_series {Q(TOL)} {Q(irs[0])} {Q(infl)} {k}%nat {QL(irs)}')
@@ -456,7 +471,8 @@ def check_runs(ctx, cfgs, results):
             'run_prod_pressure': 'production-reservoir pressure series of the run',
             'run_prod_pressure_steps': 'production-reservoir pressure series of the run (float-evaluated step count)',
             'run_hydro': 'built-in hydrostatic correlation (exponent and pressure) on the run\'s inputs',
-            'run_static': 'static pressure rho*g*depth on the run\'s depth', 'run_inj_stage': 'injection-reservoir pressure series of the run'}
+            'run_static': 'static pressure rho*g*depth on the run\'s depth',
+            'run_inj_stage2': 'injection-reservoir pressure series after the second wellbores pass (district heating)', 'run_inj_stage': 'injection-reservoir pressure series of the run'}
     jobs = []
     for run, cs in flat.items():
         req = ['Model.Hydrostatic'] if run in ('run_hydro', 'run_static') else ['Model.Pressure'] if 'pressure' in run or 'stage' in run else ['Model.Pumping']
